@@ -7,14 +7,17 @@
   Theorems about the atomic-step machine `Algo/Iterable/Model.lean` (cds/intrusive/impl/iterable_list.h: insert /
   update / erase / find / contains, begin / end / operator++ / erase_at( iterator ) / ~iterator, abstract
   reclamation), for EVERY schedule, any number of threads, any keys.  Property theorems only; the model, the
-  invariants (`SInv`, `CInv`) and the proofs live in `Algo/Iterable/{Model,Inv,Step,Step2,Step3,Iter,Run}.lean`.
+  invariants (`SInv`, `CInv`) and the proofs live in `Algo/Iterable/{Model,Inv,Step,Step2,Step3,Iter,Run,Sorted}.lean`.
   The machine is tied to the real code by trace conformance (`cdsdriver replay iterable`, client
   harness/clients/iter.cpp variant `ilist_hp`, pre-pass tools/iterable_pre.py).
 
   RESULT.
     A  structure            PROVED except the sortedness clause, which is FALSE of the real algorithm (FINDING, below):
                             `C19_chain`, `C19_chain_append_only`, `C19_element_in_one_node`, `C19_element_never_moves`,
-                            `C19_head_tail_empty`, `C19_mark_discipline`, `C19_sorted_keys_not_invariant`.
+                            `C19_head_tail_empty`, `C19_mark_discipline`, `C19_sorted_keys_not_invariant`;
+                            what IS true of sortedness: `C19_sorted_preserved_except_reuse` (every transition except the
+                            successful re-use CAS of `link_data` preserves it) and `C19_sorted_reuse_partial` (that CAS
+                            preserves it if no node in front of `pPrev` holds a key >= the new key at that instant).
     B  never disposed       PROVED: `C19_iter_never_disposed_current`.
     C  complete / once      PROVED: `C19_iter_complete_once`.
        ordered              PROVED RELATIVE TO SORTEDNESS of the final state: `C19_iter_ordered_partial`; the unconditional
@@ -38,7 +41,7 @@
   operations; CAS never fails spuriously; element ids are never re-used; `retire` is part of the removing CAS step; a
   scan reads all hazard slots atomically; only the iterator's guard is modelled as a hazard slot.
 -/
-import CdsVerif.Algo.Iterable.Run
+import CdsVerif.Algo.Iterable.Sorted
 namespace CdsVerif.Props.C19Iterable
 open CdsVerif.Machine CdsVerif.Spec CdsVerif.Algo
 
@@ -122,6 +125,37 @@ theorem C19_mark_discipline (n : Nat) (s : Iterable.St) (h : Iterable.model.Reac
       | some p =>
         rw [hl] at h1; simp only [Option.map_some, Option.some.injEq] at h1
         exact ⟨p, rfl, h1, by rw [← h1]; exact ((hS.thr t).mprev p hl).2⟩
+
+/- SORTEDNESS — full statement, NOT a theorem of this algorithm (`C19_sorted_keys_not_invariant` at the end of the file):
+     ∀ reachable s, SortedKeys s      (keys of the stored elements strictly increasing along the chain).
+   What is missing: the re-use CAS of `link_data` relies on `find_prev`, whose walk is not atomic.  Proved instead: -/
+
+/-- Every step other than the successful re-use CAS of `link_data` (`pPrev->data: null|1 → pVal`) preserves
+    sortedness: the new-node path (both neighbours are marked, their keys bracket the new key), `update` (same key),
+    `erase` / `erase_at`, all marking and restoring stores, and every step of the iterators. -/
+theorem C19_sorted_preserved_except_reuse (n : Nat) (s s' : Iterable.St) (t : Tid) (ev : Ev)
+    (h : Iterable.model.Reachable (Iterable.init n) s) (hsorted : Iterable.SortedKeys s)
+    (hs : Iterable.step s t = some (s', ev)) (hnr : ∀ j p, s.pc t ≠ .lReuse j p) : Iterable.SortedKeys s' :=
+  Iterable.sorted_step (Iterable.sinv_reachable n s h) hsorted hs hnr
+
+/-- `invoke` and `result` preserve sortedness as well. -/
+theorem C19_sorted_preserved_invoke_result (n : Nat) (s s' : Iterable.St) (t : Tid)
+    (h : Iterable.model.Reachable (Iterable.init n) s) (hsorted : Iterable.SortedKeys s) :
+    (∀ op, Iterable.invoke s t op = some s' → Iterable.SortedKeys s') ∧
+    (∀ r, Iterable.result s t = some (s', r) → Iterable.SortedKeys s') :=
+  ⟨fun _ hs => Iterable.sorted_invoke (Iterable.sinv_reachable n s h) hsorted hs,
+   fun _ hs => Iterable.sorted_result hsorted hs⟩
+
+/-- The re-use CAS preserves sortedness IF at that instant no node in front of `pPrev` holds a key `≥` the new key
+    (the right-hand side needs no hypothesis: `pCur` is marked by this thread and holds a larger key, or is the
+    tail).  `find_prev` is meant to establish the hypothesis, but walks the list non-atomically. -/
+theorem C19_sorted_reuse_partial (n : Nat) (s : Iterable.St) (t : Tid) (j : Iterable.Job) (p : Iterable.Pos)
+    (h : Iterable.model.Reachable (Iterable.init n) s) (hsorted : Iterable.SortedKeys s)
+    (hpc : s.pc t = .lReuse j p)
+    (hfront : ∀ a ea, s.lt a p.prev = true → (s.data a).p = some ea → s.key ea < j.k) :
+    Iterable.SortedKeys { s with data := upd s.data p.prev ⟨some j.e, false⟩, mo := upd s.mo p.prev none,
+                                 home := upd s.home j.e (some p.prev), pc := upd s.pc t (.lRelCur j p true) } :=
+  Iterable.sorted_lReuse (Iterable.sinv_reachable n s h) hsorted hpc hfront
 
 /-! ### B. The current element of an iterator is never disposed -/
 
@@ -234,10 +268,11 @@ def stN (t : Tid) (n : Nat) : List (Tid × Act) := List.replicate n (t, .step)
 def cl (t : Tid) (name : String) (args : List Int) : List (Tid × Act) := [(t, .invoke ⟨name, args⟩)]
 def rt (t : Tid) : List (Tid × Act) := [(t, .ret)]
 
-/-- What the examples look at: the rendered trace, the content `(element, key)` along the chain, the chain. -/
+/-- What the examples look at: the observations from position `drop` on (their rendering as harness trace lines
+    is in the comments), the content `(element, key)` along the chain, and the chain. -/
 def view (r : Option (Iterable.St × List (Tid × Obs))) (drop : Nat) :
-    Option (List String × List (Nat × Int) × List Nat) :=
-  r.map fun p => ((Iterable.render p.2).drop drop, Iterable.content p.1, Iterable.chain p.1)
+    Option (List (Tid × Obs) × List (Nat × Int) × List Nat) :=
+  r.map fun p => (p.2.drop drop, Iterable.content p.1, Iterable.chain p.1)
 
 /-- `h -> n3(empty) -> n4(e5) -> t`: keys 3 and 5 inserted, key 3 erased. -/
 def emptiedSched : List (Tid × Act) :=
@@ -251,21 +286,40 @@ def reuseSched : List (Tid × Act) :=
   emptiedSched ++ cl 0 "iter_begin" [] ++ stN 0 3 ++ cl 1 "insert" [4, 4] ++ stN 1 22 ++ rt 1 ++ stN 0 4 ++ rt 0 ++
   cl 0 "iter_next" [] ++ stN 0 4 ++ rt 0 ++ cl 0 "iter_next" [] ++ stN 0 6 ++ rt 0
 
-example : view (Iterable.model.run (Iterable.init 2) reuseSched) 73 =
-    some (["T 1 A cas+ n4.data e5 e5|1",      -- link_data: mark pCur
-           "T 1 A cas+ n3.data null null|1",  --            mark pPrev (empty)
-           "T 1 A ld n3 n4",                  --            pPrev->next == pCur
-           "T 1 A ld h n3",                   --            find_prev …
-           "T 1 A ld n3 n4", "T 1 A ld n3.data null|1", "T 1 A ld n3.data null|1", "T 1 A ld n3 n4",
-           "T 1 A ld n4 t", "T 1 A ld n4.data e5|1", "T 1 A ld n4.data e5|1",      -- … returns n3
-           "T 1 A cas+ n3.data null|1 e4",    --            re-use: the new element goes into the emptied node
-           "T 1 A st n4.data e5",             --            restore pCur
-           "T 1 R [1]",
-           "T 0 A ld h n3", "T 0 A ld n3.data e4", "T 0 A st it.hp e4", "T 0 A ld n3.data e4", "T 0 R [1, 4]",
-           "T 0 C iter_next []", "T 0 A ld n3 n4", "T 0 A ld n4.data e5", "T 0 A st it.hp e5",
-           "T 0 A ld n4.data e5", "T 0 R [1, 5]",
-           "T 0 C iter_next []", "T 0 A ld n4 t", "T 0 A ld t.data null", "T 0 A st it.hp null",
-           "T 0 A ld t.data null", "T 0 A ld t t", "T 0 A st it.hp null", "T 0 R [0]"],
+example : view (Iterable.model.run (Iterable.init 2) reuseSched) 55 =
+    some ([(1, .ev ⟨"cas+", "n4.data", "e5", "e5|1"⟩),         -- T 1 A cas+ n4.data e5 e5|1        link_data: mark pCur
+           (1, .ev ⟨"cas+", "n3.data", "null", "null|1"⟩),     -- T 1 A cas+ n3.data null null|1               mark pPrev (empty)
+           (1, .ev ⟨"ld", "n3", "n4", ""⟩),                    -- T 1 A ld n3 n4                               pPrev->next == pCur
+           (1, .ev ⟨"ld", "h", "n3", ""⟩),                     -- T 1 A ld h n3                                find_prev …
+           (1, .ev ⟨"ld", "n3", "n4", ""⟩),                    -- T 1 A ld n3 n4
+           (1, .ev ⟨"ld", "n3.data", "null|1", ""⟩),           -- T 1 A ld n3.data null|1
+           (1, .ev ⟨"ld", "n3.data", "null|1", ""⟩),           -- T 1 A ld n3.data null|1
+           (1, .ev ⟨"ld", "n3", "n4", ""⟩),                    -- T 1 A ld n3 n4
+           (1, .ev ⟨"ld", "n4", "t", ""⟩),                     -- T 1 A ld n4 t
+           (1, .ev ⟨"ld", "n4.data", "e5|1", ""⟩),             -- T 1 A ld n4.data e5|1
+           (1, .ev ⟨"ld", "n4.data", "e5|1", ""⟩),             -- T 1 A ld n4.data e5|1                        … returns n3
+           (1, .ev ⟨"cas+", "n3.data", "null|1", "e4"⟩),       -- T 1 A cas+ n3.data null|1 e4      re-use: into the emptied node
+           (1, .ev ⟨"st", "n4.data", "e5", ""⟩),               -- T 1 A st n4.data e5                          restore pCur
+           (1, .ret [1]),                                      -- T 1 R [1]
+           (0, .ev ⟨"ld", "h", "n3", ""⟩),                     -- T 0 A ld h n3
+           (0, .ev ⟨"ld", "n3.data", "e4", ""⟩),               -- T 0 A ld n3.data e4
+           (0, .ev ⟨"st", "it.hp", "e4", ""⟩),                 -- T 0 A st it.hp e4
+           (0, .ev ⟨"ld", "n3.data", "e4", ""⟩),               -- T 0 A ld n3.data e4
+           (0, .ret [1, 4]),                                   -- T 0 R [1, 4]
+           (0, .call ⟨"iter_next", []⟩),                       -- T 0 C iter_next []
+           (0, .ev ⟨"ld", "n3", "n4", ""⟩),                    -- T 0 A ld n3 n4
+           (0, .ev ⟨"ld", "n4.data", "e5", ""⟩),               -- T 0 A ld n4.data e5
+           (0, .ev ⟨"st", "it.hp", "e5", ""⟩),                 -- T 0 A st it.hp e5
+           (0, .ev ⟨"ld", "n4.data", "e5", ""⟩),               -- T 0 A ld n4.data e5
+           (0, .ret [1, 5]),                                   -- T 0 R [1, 5]
+           (0, .call ⟨"iter_next", []⟩),                       -- T 0 C iter_next []
+           (0, .ev ⟨"ld", "n4", "t", ""⟩),                     -- T 0 A ld n4 t
+           (0, .ev ⟨"ld", "t.data", "null", ""⟩),              -- T 0 A ld t.data null
+           (0, .ev ⟨"st", "it.hp", "null", ""⟩),               -- T 0 A st it.hp null
+           (0, .ev ⟨"ld", "t.data", "null", ""⟩),              -- T 0 A ld t.data null
+           (0, .ev ⟨"ld", "t", "t", ""⟩),                      -- T 0 A ld t t
+           (0, .ev ⟨"st", "it.hp", "null", ""⟩),               -- T 0 A st it.hp null
+           (0, .ret [0])],                                     -- T 0 R [0]
           [(4, 4), (5, 5)], [1, 3, 4, 2]) := by decide +kernel
 
 /-- The same insert BEHIND the iterator (which already stands on `e5`): `e4` is not yielded — it was not present
@@ -287,15 +341,30 @@ def newNodeSched : List (Tid × Act) :=
   cl 0 "iter_next" [] ++ stN 0 6 ++ rt 0
 
 example : view (Iterable.model.run (Iterable.init 2) newNodeSched) 33 =
-    some (["T 1 A cas+ t.data null null|1", "T 1 A cas+ n3.data e5 e5|1", "T 1 A ld n3 t",
-           "T 1 A st n4 null", "T 1 A st n4.data e7",        -- node constructor
-           "T 1 A st n4 t", "T 1 A cas+ n3 t n4",            -- link
-           "T 1 A st n3.data e5", "T 1 A st t.data null",    -- restore
-           "T 1 R [1]",
-           "T 0 C iter_next []", "T 0 A ld n3 n4", "T 0 A ld n4.data e7", "T 0 A st it.hp e7",
-           "T 0 A ld n4.data e7", "T 0 R [1, 7]",
-           "T 0 C iter_next []", "T 0 A ld n4 t", "T 0 A ld t.data null", "T 0 A st it.hp null",
-           "T 0 A ld t.data null", "T 0 A ld t t", "T 0 A st it.hp null", "T 0 R [0]"],
+    some ([(1, .ev ⟨"cas+", "t.data", "null", "null|1"⟩),      -- T 1 A cas+ t.data null null|1
+           (1, .ev ⟨"cas+", "n3.data", "e5", "e5|1"⟩),         -- T 1 A cas+ n3.data e5 e5|1
+           (1, .ev ⟨"ld", "n3", "t", ""⟩),                     -- T 1 A ld n3 t
+           (1, .ev ⟨"st", "n4", "null", ""⟩),                  -- T 1 A st n4 null                  node constructor
+           (1, .ev ⟨"st", "n4.data", "e7", ""⟩),               -- T 1 A st n4.data e7
+           (1, .ev ⟨"st", "n4", "t", ""⟩),                     -- T 1 A st n4 t
+           (1, .ev ⟨"cas+", "n3", "t", "n4"⟩),                 -- T 1 A cas+ n3 t n4                link
+           (1, .ev ⟨"st", "n3.data", "e5", ""⟩),               -- T 1 A st n3.data e5               restore
+           (1, .ev ⟨"st", "t.data", "null", ""⟩),              -- T 1 A st t.data null
+           (1, .ret [1]),                                      -- T 1 R [1]
+           (0, .call ⟨"iter_next", []⟩),                       -- T 0 C iter_next []
+           (0, .ev ⟨"ld", "n3", "n4", ""⟩),                    -- T 0 A ld n3 n4
+           (0, .ev ⟨"ld", "n4.data", "e7", ""⟩),               -- T 0 A ld n4.data e7
+           (0, .ev ⟨"st", "it.hp", "e7", ""⟩),                 -- T 0 A st it.hp e7
+           (0, .ev ⟨"ld", "n4.data", "e7", ""⟩),               -- T 0 A ld n4.data e7
+           (0, .ret [1, 7]),                                   -- T 0 R [1, 7]
+           (0, .call ⟨"iter_next", []⟩),                       -- T 0 C iter_next []
+           (0, .ev ⟨"ld", "n4", "t", ""⟩),                     -- T 0 A ld n4 t
+           (0, .ev ⟨"ld", "t.data", "null", ""⟩),              -- T 0 A ld t.data null
+           (0, .ev ⟨"st", "it.hp", "null", ""⟩),               -- T 0 A st it.hp null
+           (0, .ev ⟨"ld", "t.data", "null", ""⟩),              -- T 0 A ld t.data null
+           (0, .ev ⟨"ld", "t", "t", ""⟩),                      -- T 0 A ld t t
+           (0, .ev ⟨"st", "it.hp", "null", ""⟩),               -- T 0 A st it.hp null
+           (0, .ret [0])],                                     -- T 0 R [0]
           [(5, 5), (7, 7)], [1, 3, 4, 2]) := by decide +kernel
 
 /-- `erase_at` RACING WITH `link_data`'s MARK: the iterator stands on `e5`; thread 1 (insert of key 3, `pCur = n3`)
@@ -306,14 +375,26 @@ def eraseAtMarkSched : List (Tid × Act) :=
   cl 1 "insert" [5, 5] ++ stN 1 14 ++ rt 1 ++ cl 0 "iter_begin" [] ++ stN 0 7 ++ rt 0 ++
   cl 1 "insert" [3, 3] ++ stN 1 6 ++ cl 0 "erase_at" [] ++ stN 0 2 ++ stN 1 12 ++ rt 1 ++ stN 0 1 ++ rt 0
 
-example : view (Iterable.model.run (Iterable.init 2) eraseAtMarkSched) 30 =
-    some (["T 1 A cas+ n3.data e5 e5|1",
-           "T 0 C erase_at []", "T 0 A cas- n3.data e5|1 e5", "T 0 A cas- n3.data e5|1 e5",
-           "T 1 A cas+ h.data null null|1", "T 1 A ld h n3", "T 1 A ld h n3", "T 1 A ld n3 t",
-           "T 1 A ld n3.data e5|1", "T 1 A ld n3.data e5|1",
-           "T 1 A st n4 null", "T 1 A st n4.data e3", "T 1 A st n4 n3", "T 1 A cas+ h n3 n4",
-           "T 1 A st h.data null", "T 1 A st n3.data e5", "T 1 R [1]",
-           "T 0 A cas+ n3.data e5 null", "T 0 R [1]"],
+example : view (Iterable.model.run (Iterable.init 2) eraseAtMarkSched) 31 =
+    some ([(1, .ev ⟨"cas+", "n3.data", "e5", "e5|1"⟩),         -- T 1 A cas+ n3.data e5 e5|1
+           (0, .call ⟨"erase_at", []⟩),                        -- T 0 C erase_at []
+           (0, .ev ⟨"cas-", "n3.data", "e5|1", "e5"⟩),         -- T 0 A cas- n3.data e5|1 e5        (seen e5|1, expected e5): retry
+           (0, .ev ⟨"cas-", "n3.data", "e5|1", "e5"⟩),         -- T 0 A cas- n3.data e5|1 e5        retry
+           (1, .ev ⟨"cas+", "h.data", "null", "null|1"⟩),      -- T 1 A cas+ h.data null null|1
+           (1, .ev ⟨"ld", "h", "n3", ""⟩),                     -- T 1 A ld h n3
+           (1, .ev ⟨"ld", "h", "n3", ""⟩),                     -- T 1 A ld h n3                     find_prev
+           (1, .ev ⟨"ld", "n3", "t", ""⟩),                     -- T 1 A ld n3 t
+           (1, .ev ⟨"ld", "n3.data", "e5|1", ""⟩),             -- T 1 A ld n3.data e5|1
+           (1, .ev ⟨"ld", "n3.data", "e5|1", ""⟩),             -- T 1 A ld n3.data e5|1
+           (1, .ev ⟨"st", "n4", "null", ""⟩),                  -- T 1 A st n4 null
+           (1, .ev ⟨"st", "n4.data", "e3", ""⟩),               -- T 1 A st n4.data e3
+           (1, .ev ⟨"st", "n4", "n3", ""⟩),                    -- T 1 A st n4 n3
+           (1, .ev ⟨"cas+", "h", "n3", "n4"⟩),                 -- T 1 A cas+ h n3 n4
+           (1, .ev ⟨"st", "h.data", "null", ""⟩),              -- T 1 A st h.data null
+           (1, .ev ⟨"st", "n3.data", "e5", ""⟩),               -- T 1 A st n3.data e5               mark released
+           (1, .ret [1]),                                      -- T 1 R [1]
+           (0, .ev ⟨"cas+", "n3.data", "e5", "null"⟩),         -- T 0 A cas+ n3.data e5 null
+           (0, .ret [1])],                                     -- T 0 R [1]
           [(3, 3)], [1, 4, 3, 2]) := by decide +kernel
 
 example : (Iterable.model.run (Iterable.init 2) eraseAtMarkSched).map
@@ -325,9 +406,12 @@ def eraseAtReplacedSched : List (Tid × Act) :=
   cl 1 "insert" [5, 5] ++ stN 1 14 ++ rt 1 ++ cl 0 "iter_begin" [] ++ stN 0 7 ++ rt 0 ++
   cl 1 "update" [5, 6, 1] ++ stN 1 6 ++ rt 1 ++ cl 0 "erase_at" [] ++ stN 0 1 ++ rt 0
 
-example : view (Iterable.model.run (Iterable.init 2) eraseAtReplacedSched) 30 =
-    some (["T 1 A cas+ n3.data e5 e6", "T 1 R [1, 0, 5]",
-           "T 0 C erase_at []", "T 0 A cas- n3.data e6 e5", "T 0 R [0]"],
+example : view (Iterable.model.run (Iterable.init 2) eraseAtReplacedSched) 31 =
+    some ([(1, .ev ⟨"cas+", "n3.data", "e5", "e6"⟩),           -- T 1 A cas+ n3.data e5 e6
+           (1, .ret [1, 0, 5]),                                -- T 1 R [1, 0, 5]
+           (0, .call ⟨"erase_at", []⟩),                        -- T 0 C erase_at []
+           (0, .ev ⟨"cas-", "n3.data", "e6", "e5"⟩),           -- T 0 A cas- n3.data e6 e5          (seen e6, expected e5)
+           (0, .ret [0])],                                     -- T 0 R [0]
           [(6, 5)], [1, 3, 2]) := by decide +kernel
 
 /-- AN ELEMENT ERASED UNDER THE ITERATOR STAYS CURRENT AND IS NOT DISPOSED until the iterator moves on: thread 1
@@ -336,21 +420,30 @@ def erasedUnderSched : List (Tid × Act) :=
   cl 1 "insert" [5, 5] ++ stN 1 14 ++ rt 1 ++ cl 0 "iter_begin" [] ++ stN 0 7 ++ rt 0 ++
   cl 1 "erase" [5] ++ stN 1 5 ++ rt 1
 
+set_option synthInstance.maxSize 2000 in
 example : (Iterable.model.run (Iterable.init 2) erasedUnderSched).map
     (fun r => (r.1.retired 5, r.1.hp 0, r.1.hv 0, r.1.disposed 5, Iterable.content r.1,
                (Iterable.invoke r.1 1 ⟨"dispose", [5]⟩).isSome)) =
     some (some 1, some 5, true, false, [], false) := by decide +kernel
 
-example : Iterable.model.run (Iterable.init 2) (erasedUnderSched ++ cl 1 "dispose" [5]) = none := by decide +kernel
+example : (Iterable.model.run (Iterable.init 2) (erasedUnderSched ++ cl 1 "dispose" [5])).isNone = true := by
+  decide +kernel
 
 /-- … and becomes enabled as soon as `operator++` has overwritten the hazard slot (third step of `iter_next`). -/
 example : (Iterable.model.run (Iterable.init 2)
       (erasedUnderSched ++ cl 0 "iter_next" [] ++ stN 0 3 ++ cl 1 "dispose" [5] ++ rt 1 ++ stN 0 3 ++ rt 0)).map
-    (fun r => ((Iterable.render r.2).drop 32, r.1.disposed 5, r.1.hp 0)) =
-    some (["T 0 C iter_next []", "T 0 A ld n3 t", "T 0 A ld t.data null", "T 0 A st it.hp null",
-           "T 1 C dispose [5]", "T 1 R []",
-           "T 0 A ld t.data null", "T 0 A ld t t", "T 0 A st it.hp null", "T 0 R [0]"], true, none) := by
-  decide +kernel
+    (fun r => (r.2.drop 32, r.1.disposed 5, r.1.hp 0)) =
+    some ([(0, .call ⟨"iter_next", []⟩),                       -- T 0 C iter_next []
+           (0, .ev ⟨"ld", "n3", "t", ""⟩),                     -- T 0 A ld n3 t
+           (0, .ev ⟨"ld", "t.data", "null", ""⟩),              -- T 0 A ld t.data null
+           (0, .ev ⟨"st", "it.hp", "null", ""⟩),               -- T 0 A st it.hp null
+           (1, .call ⟨"dispose", [5]⟩),                        -- T 1 C dispose [5]
+           (1, .ret []),                                       -- T 1 R []
+           (0, .ev ⟨"ld", "t.data", "null", ""⟩),              -- T 0 A ld t.data null
+           (0, .ev ⟨"ld", "t", "t", ""⟩),                      -- T 0 A ld t t
+           (0, .ev ⟨"st", "it.hp", "null", ""⟩),               -- T 0 A st it.hp null
+           (0, .ret [0])],                                     -- T 0 R [0]
+          true, none) := by decide +kernel
 
 /-! ### The finding: `find_prev` is not atomic -/
 
@@ -372,21 +465,36 @@ def raceSched : List (Tid × Act) :=
   stN 0 11 ++ rt 0
 
 /-- After the race: `insert 1` has returned `[1]`, the chain holds key 2 BEFORE key 1 … -/
-example : view (Iterable.model.run (Iterable.init 2) raceSched) 184 =
-    some (["T 0 A ld n3 n4", "T 0 A ld n3.data null", "T 0 A ld n3.data null", "T 0 A ld n3 n4",
-           "T 0 A ld n4 t", "T 0 A ld n4.data null|1", "T 0 A ld n4.data null|1", "T 0 A ld n4 t", "T 0 A ld t t",
-           "T 0 A cas+ n4.data null|1 e1", "T 0 A st t.data null", "T 0 R [1]"],
+example : view (Iterable.model.run (Iterable.init 2) raceSched) 163 =
+    some ([(0, .ev ⟨"ld", "n3.data", "null", ""⟩),             -- T 0 A ld n3.data null             find_prev walks over the emptied n3 …
+           (0, .ev ⟨"ld", "n3.data", "null", ""⟩),             -- T 0 A ld n3.data null
+           (0, .ev ⟨"ld", "n3", "n4", ""⟩),                    -- T 0 A ld n3 n4
+           (0, .ev ⟨"ld", "n4", "t", ""⟩),                     -- T 0 A ld n4 t
+           (0, .ev ⟨"ld", "n4.data", "null|1", ""⟩),           -- T 0 A ld n4.data null|1           … its own marked pPrev …
+           (0, .ev ⟨"ld", "n4.data", "null|1", ""⟩),           -- T 0 A ld n4.data null|1
+           (0, .ev ⟨"ld", "n4", "t", ""⟩),                     -- T 0 A ld n4 t
+           (0, .ev ⟨"ld", "t", "t", ""⟩),                      -- T 0 A ld t t                      … and the tail: returns n4 == pos.pPrev
+           (0, .ev ⟨"cas+", "n4.data", "null|1", "e1"⟩),       -- T 0 A cas+ n4.data null|1 e1      key 1 stored behind key 2
+           (0, .ev ⟨"st", "t.data", "null", ""⟩),              -- T 0 A st t.data null
+           (0, .ret [1])],                                     -- T 0 R [1]
           [(4, 2), (1, 1)], [1, 5, 3, 4, 2]) := by decide +kernel
 
 /-- … `contains 1` answers `[0]` although key 1 was inserted and never erased, `contains 2` answers `[1]` … -/
 example : (Iterable.model.run (Iterable.init 2)
       (raceSched ++ cl 1 "contains" [1] ++ stN 1 4 ++ rt 1 ++ cl 1 "contains" [2] ++ stN 1 4 ++ rt 1)).map
-    (fun r => (r.2.filter (fun x => x.1 == 1)).drop 108) =
-    some [(1, .call ⟨"contains", [1]⟩), (1, .ev ⟨"ld", "h", "n5", ""⟩), (1, .ev ⟨"ld", "n5", "n3", ""⟩),
-          (1, .ev ⟨"ld", "n5.data", "e4", ""⟩), (1, .ev ⟨"ld", "n5.data", "e4", ""⟩), (1, .ret [0]),
-          (1, .call ⟨"contains", [2]⟩), (1, .ev ⟨"ld", "h", "n5", ""⟩), (1, .ev ⟨"ld", "n5", "n3", ""⟩),
-          (1, .ev ⟨"ld", "n5.data", "e4", ""⟩), (1, .ev ⟨"ld", "n5.data", "e4", ""⟩), (1, .ret [1])] := by
-  decide +kernel
+    (fun r => r.2.drop 174) =
+    some [(1, .call ⟨"contains", [1]⟩),                        -- T 1 C contains [1]
+          (1, .ev ⟨"ld", "h", "n5", ""⟩),                      -- T 1 A ld h n5
+          (1, .ev ⟨"ld", "n5", "n3", ""⟩),                     -- T 1 A ld n5 n3
+          (1, .ev ⟨"ld", "n5.data", "e4", ""⟩),                -- T 1 A ld n5.data e4               key 2 >= 1: the search stops here
+          (1, .ev ⟨"ld", "n5.data", "e4", ""⟩),                -- T 1 A ld n5.data e4
+          (1, .ret [0]),                                       -- T 1 R [0]
+          (1, .call ⟨"contains", [2]⟩),                        -- T 1 C contains [2]
+          (1, .ev ⟨"ld", "h", "n5", ""⟩),                      -- T 1 A ld h n5
+          (1, .ev ⟨"ld", "n5", "n3", ""⟩),                     -- T 1 A ld n5 n3
+          (1, .ev ⟨"ld", "n5.data", "e4", ""⟩),                -- T 1 A ld n5.data e4
+          (1, .ev ⟨"ld", "n5.data", "e4", ""⟩),                -- T 1 A ld n5.data e4
+          (1, .ret [1])] := by decide +kernel                  -- T 1 R [1]
 
 /-- … and a SEQUENTIAL iteration after the race (nothing else runs: both elements are present throughout) yields
     element 4 (key 2) and then element 1 (key 1): the order clause of C19 fails. -/
@@ -420,7 +528,7 @@ theorem C19_iter_order_can_fail :
       · intro op hop
         have : op = ⟨"iter_next", []⟩ := by
           simp only [raceIterSched, stN, cl, rt, List.mem_append, List.mem_replicate, List.mem_singleton,
-            Prod.mk.injEq, reduceCtorEq, and_false, false_and, or_false, false_or, Act.invoke.injEq, true_and] at hop
+            Prod.mk.injEq, reduceCtorEq, and_false, or_false, false_or, Act.invoke.injEq, true_and] at hop
           rcases hop with h | h <;> exact h
         rw [this]; rfl
       · intro e he sk hsk
